@@ -4,6 +4,7 @@ import (
 	"context"
 	"crypto/sha256"
 	"errors"
+	"path/filepath"
 	"fmt"
 	"sort"
 	"strings"
@@ -667,3 +668,5 @@ func (w *world) withinOracle(t *wTask, lo uint64) string {
 func jrpcFor(node *simnode.Node) shovel.Source {
 	return jrpc2.New(node.URL() + "/nocache").WithMaxReads(0).WithPollDuration(time.Hour)
 }
+
+func filepathGlob(p string) ([]string, error) { return filepath.Glob(p) }
